@@ -170,6 +170,7 @@ func runWebUI(env *execenv.Env, opts webUIOptions) error {
 		// default to true
 		configOpen = true
 	} else if err != nil {
+		_ = mrc.Close()
 		return err
 	}
 
@@ -184,6 +185,8 @@ func runWebUI(env *execenv.Env, opts webUIOptions) error {
 
 	err = srv.ListenAndServe()
 	if err != nil && err != http.ErrServerClosed {
+		// the server never ran (e.g. the port is taken): nobody will trigger the teardown
+		_ = mrc.Close()
 		return err
 	}
 
